@@ -2,7 +2,7 @@
   TagGraph — self-contained model of the tag management API of
   internal/index/manager/manager.go (property C11):
 
-    AddTag, DelTag, UpdateTag{query, color, name, converters, mark add, mark tdel},
+    AddTag, DelTag, UpdateTag{query, color, name, converters, mark add, mark del},
     inheritTagUncertainty, startTaggingJobIfNeeded (its dereferences only),
     the start-up validation of tags in New, makeTagInfo/ListTags.
 
@@ -16,9 +16,9 @@
     a `for len(resolved) != len(tags)` walk that can not finish is `Outcome.diverged site`
     (fuel = |tags|+1 rounds; a round without progress repeats for ever in the code).
   * bitmasks are sorted duplicate-free `List Nat`.
-  * the background tagging job is represented only by `settle` (what the service thas computed once
+  * the background tagging job is represented only by `settle` (what the service has computed once
     `Status().TaggingJobRunning = false` and all `UncertainCount = 0`): for a definition that is a
-    plain id filter the job's result is `StreamIDs`, for anything else the match tset is outside this
+    plain id filter the job's result is `StreamIDs`, for anything else the match set is outside this
     model (`known := false`).
   Core Lean only (linked into `pkmodel`).
 -/
@@ -76,7 +76,7 @@ structure Tag where
   referencedBy : List Name := []
   deriving Repr, DecidableEq, Inhabited
 
-/-- `tag.referencedTags()` (a tset in the code; duplicates are harmless here) -/
+/-- `tag.referencedTags()` (a set in the code; duplicates are harmless here) -/
 def Tag.refs (t : Tag) : List Name := t.mainTags ++ t.subTags
 
 abbrev TagMap := List (Name × Tag)
